@@ -75,11 +75,13 @@ class Node:
 
 
 class Edge:
-    __slots__ = ('src', 'dst', 'kind', 'exc', 'cause', 'call', 'phase')
+    __slots__ = ('src', 'dst', 'kind', 'exc', 'cause', 'call', 'phase', 'branch')
 
-    def __init__(self, src, dst, kind, exc=None, cause=None, call=None, phase=None):
+    def __init__(self, src, dst, kind, exc=None, cause=None, call=None, phase=None, branch=None):
         self.src, self.dst, self.kind = src, dst, kind
         self.exc, self.cause, self.call, self.phase = exc, cause, call, phase
+        # which side of a test this edge is ('true'/'false'), also for back edges
+        self.branch = branch if branch is not None else (kind if kind in ('true', 'false') else None)
 
     def __repr__(self):
         extra = f' {self.exc}/{self.cause or self.phase}' if self.exc else ''
@@ -326,7 +328,7 @@ class CFG:
             loop = Frame('loop', frame, head=head, breaks=[])
             body_tails = self._block(st.body, [(last, 'true')], loop) if truth is not False else []
             for t, k in body_tails:
-                self._edge(t, head, 'back')
+                self._edge(t, head, 'back', branch=k if k in ('true', 'false') else None)
             out = list(loop.breaks)
             if truth is not True:
                 if st.orelse:
@@ -346,7 +348,7 @@ class CFG:
             loop = Frame('loop', frame, head=head, breaks=[])
             body_tails = self._block(st.body, [(head, 'true')], loop)
             for t, k in body_tails:
-                self._edge(t, head, 'back')
+                self._edge(t, head, 'back', branch=k if k in ('true', 'false') else None)
             out = list(loop.breaks)
             if st.orelse:
                 out += self._block(st.orelse, [(head, 'false')], frame)
